@@ -165,7 +165,8 @@ def build2(text):
     if ck is None:
         return oc, ck, msg, None
     first = bytes(ck.model.encode())
-    if prev is not None and prev != text:
+    _prev_text.append(None)                       # (call counter) the other schema is compiled at every 2nd call
+    if prev is not None and prev != text and len(_prev_text) % 2:
         try:
             L.compile_lvs(prev)
         except Exception:  # noqa - outcome of the other schema is judged where it is generated
@@ -334,7 +335,10 @@ class Gen:
                 r['_twin'] = src
                 rules.append(r)
                 continue
-            rules.append(self._rule(rid, [q for q in ids if rank[q] < rank[rid]]))
+            # another definition of the same rule likes the temporary identifiers its siblings use (each definition
+            # has temporaries and constraints of its own, whatever they are called)
+            sib = sorted({i['p'] for r in rules if r['id'] == rid for i in r['name'] if i['k'] == 'p' and i['p'][0] == '_'})
+            rules.append(self._rule(rid, [q for q in ids if rank[q] < rank[rid]], sib))
         # named patterns that occur in some name
         occurring = sorted({i['p'] for r in rules for i in r['name'] if i['k'] == 'p' and i['p'][0] != '_'})
         for r in rules:
@@ -397,7 +401,7 @@ class Gen:
                     rules.append(t)
         return rules
 
-    def _rule(self, rid, refs):
+    def _rule(self, rid, refs, sib=()):
         rng = self.rng
         budget = rng.choice([1, 2, 2, 3, 3, self.max_len])
         name, used = [], 0
@@ -414,12 +418,15 @@ class Gen:
                     name.append(R(q)); used += self.minlen[q]
             elif x < 0.60:
                 name.append(V(rng.choice(self.lits))); used += 1
-            elif x < 0.85:
+            elif x < (0.70 if sib else 0.85):
                 p = rng.choice(self.named)
                 name.append(P(p)); used += 1; own_named.add(p)
             else:
                 have = [i['p'] for i in name if i['k'] == 'p' and i['p'][0] == '_']
                 # the same temporary identifier at several positions: one constraint then covers them all
+                if sib and not have and rng.random() < 0.7:
+                    name.append(P(rng.choice(list(sib)))); used += 1
+                    continue
                 name.append(P(rng.choice(have) if have and rng.random() < 0.5 else rng.choice(TEMPS))); used += 1
         r = rule(rid, name)
         self.minlen[rid] = min(self.minlen.get(rid, 99), used)
